@@ -83,3 +83,49 @@ Definition ga_cond_eval (internal flag : bool) (cond : string) : bool :=
   else false.
 Definition ga_bypass_selected (r : ga_regctl) (internal flag : bool) : bool :=
   existsb (fun e : list string * string * bool => forallb (ga_cond_eval internal flag) (fst (fst e))) (rc_bypass r).
+
+(* ---- ssh tunnel gateway (pkg/ssh/gateway.go NewGateway, pkg/ssh/server.go TunnelServer.Run) ---------------- *)
+Record ga_sshgw := {
+  sgw_no_client_auth : list string;          (* right-hand sides of `sshConfig.NoClientAuth = …` *)
+  sgw_callback : list string;                (* classified top-level statements of the PublicKeyCallback literal *)
+  sgw_callback_success_returns : Z;          (* `return <perms>, nil` anywhere in it *)
+  sgw_other_callbacks : list string;         (* other *Callback fields of the ssh ServerConfig that get assigned *)
+  sgw_always_auth_pass : list string         (* values given to ClientSpec.AlwaysAuthPass in pkg/ssh/server.go *)
+}.
+
+(* the shape Model/SshGate.v mirrors: NoClientAuth iff no file; the callback loads the file, fails on error, looks the
+   key blob up, fails when absent, and only then succeeds (one success return, the last statement); nothing else can
+   authenticate; AlwaysAuthPass is the negation of NoClientAuth *)
+Definition ga_sshgw_ok (g : ga_sshgw) : bool :=
+  ga_strs_eqb (sgw_no_client_auth g) ["cfg.AuthorizedKeysFile == """""]%string &&
+  ga_strs_eqb (sgw_callback g)
+    ["authorizedKeysMap, err := loadAuthorizedKeysFromFile(cfg.AuthorizedKeysFile)";
+     "if err != nil fail";
+     "user, ok := authorizedKeysMap[string(key.Marshal())]";
+     "if !ok fail";
+     "return success"]%string &&
+  (sgw_callback_success_returns g =? 1) &&
+  ga_strs_eqb (sgw_other_callbacks g) [] &&
+  ga_strs_eqb (sgw_always_auth_pass g) ["!s.sc.NoClientAuth"]%string.
+
+(* ---- pkg/auth/auth.go NewAuthVerifier: the configured verifier is the token verifier built from (scopes, token) or the
+   OIDC consumer — never the always-pass verifier, whatever the token is (an empty token is a credential like any other) *)
+Record ga_newverifier := {
+  nav_cases : list (string * list string);
+  nav_other_statements : Z;
+  nav_always_pass_mentions : Z
+}.
+
+Fixpoint ga_cases_eqb (a b : list (string * list string)) : bool :=
+  match a, b with
+  | [], [] => true
+  | (x, xs) :: a', (y, ys) :: b' => String.eqb x y && ga_strs_eqb xs ys && ga_cases_eqb a' b'
+  | _, _ => false
+  end.
+
+Definition ga_newverifier_ok (g : ga_newverifier) : bool :=
+  ga_cases_eqb (nav_cases g)
+    [("cfg.Method: v1.AuthMethodToken", ["authVerifier = NewTokenAuth(cfg.AdditionalScopes, cfg.Token)"]);
+     ("cfg.Method: v1.AuthMethodOIDC", ["tokenVerifier := NewTokenVerifier(cfg.OIDC)";
+                                        "authVerifier = NewOidcAuthVerifier(cfg.AdditionalScopes, tokenVerifier)"])]%string &&
+  (nav_other_statements g =? 0) && (nav_always_pass_mentions g =? 0).
